@@ -121,6 +121,60 @@ CLAIMS["C20"] = dict(
     design_ref="DESIGN.md section 4 C20, section 9",
     note=TRUSTED + " Assumed contracts: Context/ResponseWriter observers are functions of the object and the handler-invocation epoch; slog, net, time externs.")
 
+BOUNDED = (" The bounded stand-in (standins/routing_test.go, injected with go test -overlay, labelled bounded in the evidence file and never counted as proved) compares "
+           "the real Router with an executable reference of the documented matching rules over every set of <=2 (quick) / <=3 (thorough) routes from a fixed pool of "
+           "20 path and 8 hostname patterns plus deep pools, for a fixed probe list; bound: pool, set size and probes.")
+CLAIMS["C01"] = dict(
+    technique="contract-based deductive verification of the matcher's mechanisms (edge search, method index, host/path fallback) + bounded stand-in for the walk itself",
+    text=("Proved for every node/array: linearSearch and binarySearch return the unique static child whose first byte matches or -1 (sortedness of the static edges is a "
+          "precondition, re-established by newNode's sort and asserted at every node rebuilt by insert/update/remove), compare is the byte order, methodIndex is fully "
+          "specified, roots.lookup tries the hostname walk first with the stripped host and falls back to the path walk exactly when it selected nothing. "
+          "NOT proved (bounded only): lookupByPath/lookupByDomain themselves - priority static > parameter > catch-all, backtracking, parameters in pattern order, "
+          "substitution - are goto-structured walks outside the generator's reach; they are abstracted as uninterpreted functions of (tree, host, path) in the callers."),
+    design_ref="DESIGN.md section 4 C01, section 9, section 10",
+    note=TRUSTED + BOUNDED + " Two genuine defects found by the stand-in were repaired (parameter count after a second backtrack; known_findings.json); three sibling-dependent trailing-slash priority witnesses are recorded as open findings.")
+CLAIMS["C08"] = dict(
+    technique="contract-based deductive verification of request dispatch over an abstract selection function + bounded stand-in for the trailing-slash detection in the walk",
+    text=("Proved for every request and router state (ServeHTTP, partial correctness): exactly one handler runs; a direct match runs the route's handler with tsr=false; "
+          "a trailing-slash-only match runs the route's handler with tsr=true iff the route ignores trailing slashes (and the method is not CONNECT, the path not '/'); it runs "
+          "the redirect handler iff the route redirects and the request path equals CleanPath of itself, with no route/params in the context; otherwise the request is "
+          "unserved (C11). FixTrailingSlash adds or removes exactly one final slash. copyWithResize keeps the tsr parameters. roots.lookup only ever sets the tsr flag it was "
+          "given. NOT proved (bounded only): that the walk reports tsr exactly when the slash-adjusted path has a route and picks the documented route."),
+    design_ref="DESIGN.md section 4 C08, section 9, section 10",
+    note=TRUSTED + BOUNDED + " Assumed: the contract of (*iTree).lookup (selection is a function of the immutable tree and the request; writes only the context buffers). One genuine defect was repaired (tsr pointing at the parent route), three priority witnesses are open known findings.")
+CLAIMS["C09"] = dict(
+    technique="contract-based deductive verification of host normalisation and of the hostname-first lookup + bounded stand-in for the hostname walk",
+    text=("Proved for every Host string: StripHostPort returns the host without a final ':port' (bracketed IPv6 kept), and without one trailing dot; SplitHostZone splits at the "
+          "first '%'; roots.lookup hands the hostname walk exactly StripHostPort(Host) and the unchanged path (assert-at on the call), tries it first whenever the method has "
+          "hostname routes and falls back to the path-only walk exactly when it selected nothing. NOT proved (bounded only): case handling, label anchoring and the priority of "
+          "hostname routes inside lookupByDomain."),
+    design_ref="DESIGN.md section 4 C09, section 9, section 10",
+    note=TRUSTED + BOUNDED + " Assumed contracts: strings.LastIndexByte/IndexByte/TrimSuffix/Contains, net.SplitHostPort is not used on this path. One genuine defect was repaired (a hostname route matched any Host it is a prefix of).")
+CLAIMS["C12"] = dict(
+    technique="contract-based deductive verification: postconditions of the context reset variants, of dispatch (what the handler is given) and of CloneWith/Close",
+    text=("Proved: reset, resetNil and resetWithWriter overwrite every request-derived field of a recycled context (request, writer, recorder state via recorder.reset (C14), "
+          "route, tsr flag, scope, cached query, parameter length 0) whatever it held before; ServeHTTP resets the pooled context before the lookup and the handler is given "
+          "exactly the current request, the selected route, its tsr flag and scope, and zero parameters on the unserved paths (loop invariants of the three Allow loops keep the "
+          "context clean); CloneWith produces a context with its own parameter array holding the current values; Close returns a context to the pool only when its buffers are "
+          "within the router's limits. Not decided: Clone (reads the recorder through an interface the generator cannot refine), TeeWriter, concurrent reuse (pool semantics assumed)."),
+    design_ref="DESIGN.md section 4 C12, section 9",
+    note=TRUSTED + " Assumed: sync.Pool Get returns either a fresh context from New or one previously Put (pool-discipline assume-at in ServeHTTP), url.ParseQuery extern. CloneWith/Close/copyWithResize partial correctness.")
+CLAIMS["C10"]["text"] += (" Routability half: bounded only - the routing stand-in (see C01) inserts every accepted pattern of its pool, builds requests by substituting values "
+                          "and checks the route is selected with those values.")
+CLAIMS["C10"]["note"] += BOUNDED
+
+CLAIMS["C11"] = dict(
+    technique="contract-based deductive verification of the unserved-request section of ServeHTTP: ghost record of the method keys written to the Allow builder, loop invariants, SMT",
+    text=("Proved for every request, router options and tree (ServeHTTP, partial correctness; selection abstracted as a function of the immutable tree and (method, host, path)): "
+          "an unserved request runs exactly one of the options / no-method / no-route handlers with no route, tsr=false, zero parameters and the matching scope; the options handler "
+          "runs iff the method is OPTIONS, automatic replies are on and some method serves the host and path directly or by an ignored trailing slash (for '*': some non-OPTIONS "
+          "method has routes), and the set of method keys written to the Allow builder is exactly that set, followed by OPTIONS; otherwise with method-not-allowed on, the "
+          "no-method handler runs iff some OTHER method serves the request and the keys written are exactly those; otherwise the no-route handler runs; every lazy lookup of the "
+          "Allow loops is made with the request's own host and escaped path. Not decided: the byte content of the header value (separator placement; the ghost record is tied to "
+          "the WriteString calls by assert-at/ghost-set anchors), the handlers' bodies."),
+    design_ref="DESIGN.md section 4 C11, section 9",
+    note=TRUSTED + " Assumed: the contract of (*iTree).lookup, strings.Builder Len/WriteString over ghost length, method root keys are non-empty (precondition root-keys).")
+
 NOT_APPLICABLE = {
     "C01": "only edge search and method index are under contract so far; matcher mechanisms not yet (DESIGN.md section 4 C01)",
     "C02": "not yet under contract in this revision (counters/guards planned, DESIGN.md §4 C02)",
